@@ -210,6 +210,8 @@ def sync_stream_size(d, path):
         i += sizes[k % len(sizes)]
         k += 1
         n += 1
+    if f.get('empty_every'):
+        n += n // f['empty_every'] + 1
     return size + 8 * n + 8
 
 
